@@ -84,7 +84,16 @@ def group(d):
     return "basis"
 
 
-def build(d):
+def _nothing():
+    return None
+
+
+def build(d, before_top=None):
+    """The object described by d.  before_top() is called when every part has been built and
+    only the top-level object is still to be created (used to free an aimed-at block at the
+    last moment, see allocsim.aim)."""
+    if before_top is None:
+        before_top = _nothing
     pm = common.lazy_permuta()
     from permuta.patterns.bivincularpatt import BivincularPatt, CovincularPatt, VincularPatt  # pylint: disable=import-outside-toplevel
     from permuta.perm_sets.basis import Basis, MeshBasis  # pylint: disable=import-outside-toplevel
@@ -93,6 +102,7 @@ def build(d):
     if t == "perm":
         r = d.get("route", "fresh")
         p = tuple(d["perm"])
+        before_top()
         if r == "fresh":
             return pm.Perm(p)
         if r == "list":
@@ -113,16 +123,25 @@ def build(d):
             cells = cells + cells[::-1]
         elif o == "sorted":
             cells = sorted(cells)
-        return pm.MeshPatt(pm.Perm(d["perm"]), cells)
+        und = pm.Perm(d["perm"])
+        before_top()
+        return pm.MeshPatt(und, cells)
     if t == "biv":
-        return BivincularPatt(pm.Perm(d["perm"]), d["idx"], d["val"])
+        und = pm.Perm(d["perm"])
+        before_top()
+        return BivincularPatt(und, d["idx"], d["val"])
     if t == "vinc":
-        return VincularPatt(pm.Perm(d["perm"]), d["idx"])
+        und = pm.Perm(d["perm"])
+        before_top()
+        return VincularPatt(und, d["idx"])
     if t == "cov":
-        return CovincularPatt(pm.Perm(d["perm"]), d["val"])
+        und = pm.Perm(d["perm"])
+        before_top()
+        return CovincularPatt(und, d["val"])
     if t == "basis":
         perms = [pm.Perm(p) for p in d["perms"]]
         r = d.get("route", "args")
+        before_top()
         if r == "rev":
             return Basis(*reversed(perms))
         if r == "dup":
@@ -135,6 +154,7 @@ def build(d):
     if t == "meshbasis":
         items = [build(i) for i in d["items"]]
         r = d.get("route", "args")
+        before_top()
         if r == "rev":
             return MeshBasis(*reversed(items))
         if r == "dup":
@@ -857,10 +877,12 @@ def execute(case):
                     shape = build(op["new"])
                     typ, nitems = type(shape), (tuple.__len__(shape) if isinstance(shape, tuple) else None)
                     del shape
-                    _addr, held = allocsim.aim(typ, nitems, {old_id}, tries=1500)
-                    held[-1] = None
-                    new = build(op["new"])
-                    del held
+                    _addr, held = allocsim.aim(typ, nitems, {old_id})
+                    def _release(held=held):
+                        held[-1] = None
+
+                    new = build(op["new"], _release)
+                    del held, _release
                     if id(new) != old_id:
                         keep.append(new)
                         new = None
